@@ -74,9 +74,14 @@ def oracle(ctx):
         vals = [rnd.choice(pool_ok) for _ in range(rnd.randint(1, 3))]
         if rnd.random() < 0.5:
             vals.insert(rnd.randint(0, len(vals)), rnd.choice(pool_bad + [s for s in strings[:2000] if s]))
+        if rnd.random() < 0.25:
+            # a value that is not empty in the file but blank once unquoted: not a reset (the raw text is not empty), not a port
+            vals.insert(rnd.randint(0, len(vals)), 'BLANK:' + rnd.choice(['""', "''", '" "', '"\\t"', '\\s', '\\x20', '"" ', '"\\x20\\t"']))
         # white space around the value: bare in the file (dropped by the reader) or protected by quotes / escapes, so that
         # it reaches the converter — which must ignore it and pass the bare value on
         def spell(v):
+            if v.startswith('BLANK:'):
+                return v[6:]
             r = rnd.random()
             if r < 0.55 or v == '' or '"' in v or '\\' in v:
                 return rnd.choice(['', ' ', '  ', '\t']) + v + rnd.choice(['', ' ', '\t '])
@@ -87,11 +92,13 @@ def oracle(ctx):
     io = ctx.impl(ops)
     for (vals, deco), op, a in zip(cases, ops, io):
         res.oracle_evals += 1
-        eff = [v.strip() for v in vals if v.strip() != '']  # an empty assignment resets the list (C15)
+        blank = lambda v: '' if v.startswith('BLANK:') else v.strip()
+        reset = lambda v: not v.startswith('BLANK:') and v.strip() == ''
+        eff = [blank(v) for v in vals if not reset(v)]  # an empty assignment resets the list (C15)
         # list reset semantics: everything before the last empty assignment is dropped
-        if '' in [v.strip() for v in vals]:
-            idx = max(i for i, v in enumerate(vals) if v.strip() == '')
-            eff = [v.strip() for v in vals[idx + 1:]]
+        if any(reset(v) for v in vals):
+            idx = max(i for i, v in enumerate(vals) if reset(v))
+            eff = [blank(v) for v in vals[idx + 1:]]
         bad = [v for v in eff if not SPEC_RE.fullmatch(v)]
         fail = None
         if bad:
